@@ -9,6 +9,7 @@
 
 int main(int argc, char** argv) {
     verif::Args args = verif::Args::Parse(argc, argv);
+    const bool shard_replay = verif::ParseShardReplay(args);
     verif::Result res;
     res.tier = args.tier;
     res.seed = args.seed;
@@ -49,5 +50,5 @@ int main(int argc, char** argv) {
         std::fprintf(stderr, "usage: isa c01|... [--tier t]\n");
         return 2;
     }
-    return res.Write(args.out.c_str()) ? 0 : 2;
+    return verif::Finish(args, res, shard_replay);
 }
